@@ -324,12 +324,17 @@ Variable eps : R.
 Hypothesis eps_nonneg : 0 <= eps.
 Notation umeyamaR := (umeyama svd eps).
 
-Lemma rank_ok_d2 (d : V3R) : vx d >= vy d -> vy d >= vz d -> rank_ok eps d = true -> eps < vy d.
+Lemma rank_ok_d2 (d : V3R) : vx d >= vy d -> vy d >= vz d -> rank_ok eps d = true -> rank_tol eps d < vy d.
 Proof.
-  intros G1 G2. unfold rank_ok. rnum.
-  destruct (Rltb eps (vx d)) eqn:E1, (Rltb eps (vy d)) eqn:E2, (Rltb eps (vz d)) eqn:E3; cbn; intros H;
+  intros G1 G2. unfold rank_ok. set (eps0 := rank_tol eps d). rnum.
+  destruct (Rltb eps0 (vx d)) eqn:E1, (Rltb eps0 (vy d)) eqn:E2, (Rltb eps0 (vz d)) eqn:E3; cbn; intros H;
     try discriminate; try (apply Rltb_true in E2; exact E2);
     apply Rltb_false in E2; try (apply Rltb_true in E3); try (apply Rltb_true in E1); lra.
+Qed.
+Lemma rank_tol_nonneg (d : V3R) : vx d >= vy d -> vy d >= vz d -> vz d >= 0 -> 0 <= rank_tol eps d.
+Proof.
+  intros G1 G2 G3. unfold rank_tol. rnum. destruct (Rltb eps _) eqn:E; [|exact eps_nonneg].
+  apply Rmult_le_pos; [|exact eps_nonneg]. apply Rmult_le_pos; lra.
 Qed.
 Lemma kabsch_sign_det (u v : M3R) : Orth u -> Orth v -> kabsch_sign u v = det u * det v.
 Proof.
@@ -358,7 +363,7 @@ Proof.
   destruct (svd (cov_xy x y)) as [[u d] v].
   destruct S as (Ou & Ov & Hc & G1 & G2 & G3).
   destruct (rank_ok eps d) eqn:Rk; [|discriminate]. unfold negb.
-  pose proof (rank_ok_d2 d G1 G2 Rk) as D2. assert (D2p : 0 < vy d) by lra.
+  pose proof (rank_ok_d2 d G1 G2 Rk) as D2. pose proof (rank_tol_nonneg d G1 G2 G3) as Tn. assert (D2p : 0 < vy d) by lra.
   rewrite (kabsch_sign_det u v Ou Ov). intros H.
   apply (f_equal (fun o => match o with Some q => q | None => (r, t, c) end)) in H.
   apply pair_equal_spec in H. destruct H as [H Hc0]. apply pair_equal_spec in H. destruct H as [Hr0 Ht0].
@@ -412,7 +417,7 @@ Proof.
   intros S H. unfold svd_at in S. unfold umeyama. destruct (negb _); [reflexivity|].
   destruct (svd (cov_xy x y)) as [[u d] v] eqn:E.
   destruct S as (_ & _ & _ & G1 & G2 & G3). specialize (H u d v eq_refl).
-  destruct (rank_ok eps d) eqn:Rk; [|reflexivity]. pose proof (rank_ok_d2 d G1 G2 Rk). lra.
+  destruct (rank_ok eps d) eqn:Rk; [|reflexivity]. pose proof (rank_ok_d2 d G1 G2 Rk). pose proof (rank_tol_nonneg d G1 G2 G3). lra.
 Qed.
 (* all points of x coincident: exactly degenerate, refused *)
 Theorem umeyama_refuses_coincident ws (x y : list V3R) (p : V3R) : svd_at svd (cov_xy x y) -> length x = length y ->
@@ -600,7 +605,11 @@ Example ex_result_exists : exists r t c, umeyama ex_svd (/ 2 ^ 52) false ex_pts 
 Proof.
   unfold umeyama. cbn [length Nat.eqb negb ex_svd].
   assert (Rk : rank_ok (/ 2 ^ 52) (mkV3 (1/3) (1/3) (1/12)) = true).
-  { unfold rank_ok. rnum. cbn [vx vy vz].
+  { unfold rank_ok.
+    assert (Et : rank_tol (/ 2 ^ 52) (mkV3 (1/3) (1/3) (1/12)) = / 2 ^ 52).
+    { unfold rank_tol. rnum. cbn [vx]. replace (1 / 3 * 3 * / 2 ^ 52) with (/ 2 ^ 52) by field.
+      replace (Rltb (/ 2 ^ 52) (/ 2 ^ 52)) with false; [reflexivity|]. symmetry. apply Rltb_false. lra. }
+    rewrite Et. rnum. cbn [vx vy vz].
     assert (E : / 2 ^ 52 < 1 / 12).
     { assert (12 < 2 ^ 52) by (simpl; lra). apply Rmult_lt_reg_r with (2 ^ 52 * 12); [nra|]. field_simplify; lra. }
     replace (Rltb (/ 2 ^ 52) (1 / 3)) with true by (symmetry; apply Rltb_true; lra).
